@@ -20,9 +20,9 @@ type gctx struct {
 }
 
 var pkgs = []string{"com.acme.blog", "com.acme.blog.repo", "org.x"}
-var extTypes = []javagen.Import{{"ext.lib", "Helper"}, {"ext.lib", "Repository"}, {"ext.data", "BlogRepository"}, {"java.util", "List"}, {"java.util", "Optional"}, {"ext.lib", "Base"},
+var extTypes = []javagen.Import{{Pkg: "ext.lib", Name: "Helper"}, {Pkg: "ext.lib", Name: "Repository"}, {Pkg: "ext.data", Name: "BlogRepository"}, {Pkg: "java.util", Name: "List"}, {Pkg: "java.util", Name: "Optional"}, {Pkg: "ext.lib", Name: "Base"},
 	// the same simple name from two packages: which one a file means is decided by that file's own import
-	{"billing", "Formatter"}, {"legacy", "Formatter"}}
+	{Pkg: "billing", Name: "Formatter"}, {Pkg: "legacy", Name: "Formatter"}}
 var varNames = []string{"repo", "svc", "x", "item", "helper", "id", "foo", "e", "list"}
 var callees = []string{"save", "find", "get", "run", "apply", "x", "of", "veryLongMethodNameForColumnArithmetic", "a"}
 
